@@ -80,26 +80,38 @@ class MysqlServer:
 
         except Exception:  # pylint: disable=broad-except
             logger.exception("Failed to create connection")
-            await stream.write(
-                # Return an error so clients don't freeze
-                packets.make_error(capabilities=self.capabilities)
-            )
+            try:
+                await stream.write(
+                    # Return an error so clients don't freeze
+                    packets.make_error(capabilities=self.capabilities)
+                )
+            finally:
+                # A refused client is disconnected, not left with an open socket
+                writer.close()
             return
 
         try:
             connection_id = await self.control.add(connection)
             connection.connection_id = connection_id
         except TooManyConnections:
-            await stream.write(
-                connection.error(
-                    msg="Too many connections",
-                    code=ErrorCode.CON_COUNT_ERROR,
+            try:
+                await stream.write(
+                    connection.error(
+                        msg="Too many connections",
+                        code=ErrorCode.CON_COUNT_ERROR,
+                    )
                 )
-            )
+            finally:
+                writer.close()
             return
         except Exception:  # pylint: disable=broad-except
             logger.exception("Failed to register connection")
-            await stream.write(connection.error(msg="Failed to register connection"))
+            try:
+                await stream.write(
+                    connection.error(msg="Failed to register connection")
+                )
+            finally:
+                writer.close()
             return
 
         try:
